@@ -32,40 +32,56 @@ import tr_regflow
 
 MANIFEST = {
     "text": "Executable Gallina model of registration.py / registry.py / custom.py / the Custom* decorators / "
-            "_validate_type / parse dispatch; theorems for every registry and every history (induction): reg_exact "
-            "(+frame), reg_exclusive, reg_version_scoped, growing partial function, first registration sticks for "
-            "ever, built-ins never displaced, registered types parse to their class; recognisers <-> declarative "
-            "naming rules (type, extension and property names) for the repaired variants, *_refuted witnesses for "
-            "the code as found; invalid names refused with the registry unchanged; the class table each decorator "
-            "builds (Model/RegistryBuilder.v, schema family's vocabulary) has distinct names, the standard properties "
-            "intact around the user's, equal slot for slot to the specification's common properties, and keeps the "
-            "C02 side condition world_refines for the extended world. Correspondence: histories in fresh "
-            "interpreters + name strings + dumped live custom classes vs the model; oracle = reference dictionary + "
-            "naming rules + round-trip/validation/versioning of registered custom types (incl. other extensions on "
-            "the instance, version-dependent validation compared with a built-in type; class tables unchanged when the "
-            "caller mutates the properties object it passed; marking-definition accepts a definition object only of "
-            "the class registered under its definition_type). Props/C19Src.v: the control "
-            "flow of registration.py's _register_* (order checks / duplicate test / write, map and version key), the "
-            "shape of _validate_props, class_for_type's exclusive category dispatch, _get_properties_dict's copy and "
-            "the wrappers' unconditional extension_name= registration, read from the source by "
-            "tr_regflow (fail-closed), are what the model transcribes (an interpreter of the source's step lists IS "
-            "the model's register_* function).",
+            "_validate_type / parse dispatch (Model/Registry.v). PROVED for every variant of the model, every registry and "
+            "every history (induction): reg_exact (+frame), reg_exclusive, reg_version_scoped, the registry is a growing "
+            "partial function, the first registration sticks for ever, built-ins are never displaced; dispatch (model "
+            "level): a registered custom object / observable parses to its class with an explicit version AND on the "
+            "default path (version=None, utils.detect_spec_version: 2.1 data carrying spec_version, 2.0 data without; a "
+            "bundle's own version detection is DUnmodelled and left to C14), a registered marking / extension is what "
+            "MarkingDefinition.__init__ / ExtensionsProperty.clean dispatch to. Naming: recognisers <-> declarative rules "
+            "(type, extension and property names) are conditional on the variant in Props/C19.v (with *_refuted witnesses "
+            "for the defective variants) and DISCHARGED AT THE CURRENT SOURCE in Props/C19Src.v "
+            "(source_variant_is_repaired, source_naming_rules, source_invalid_names_refused); invalid names are refused "
+            "with the registry unchanged. Props/C19Src.v also: the control flow of registration.py's _register_* (order "
+            "checks / duplicate test / write, map and version key), the shape of _validate_props, class_for_type's "
+            "exclusive category dispatch, _get_properties_dict's copy and the wrappers' unconditional extension_name= "
+            "registration, read from the source by tr_regflow (fail-closed), are what the model transcribes (an "
+            "interpreter of the source's step lists IS the model's register_* function). Custom types inherit: the class "
+            "table each decorator builds (Model/RegistryBuilder.v, schema family's vocabulary, compared with the dumped "
+            "live class every run) has distinct names, the standard properties intact around the user's, equal slot for "
+            "slot to the specification's common properties, and keeps the C02 side condition world_refines for the "
+            "extended world; C02 strict soundness (Props/C19InheritC02.v) and the C01 round-trip theorems "
+            "(Props/C19InheritC01.v) are instantiated at the library world extended by a registered custom type, MODULO "
+            "the owning builders' coverage predicates (below). Correspondence: histories in fresh interpreters + name "
+            "strings + dumped live custom classes vs the model. Oracle (implementation only): reference dictionary, "
+            "naming rules, round trip byte for byte, validation, new_version, other extensions kept on instances, "
+            "version-dependent validation compared with a built-in type, class tables unchanged when the caller mutates "
+            "the properties object it passed, marking-definition accepts a definition object only of the class "
+            "registered under its definition_type.",
     "design_ref": "DESIGN.md 6/C19, 7 row C19; design_notes/C19.md",
-    "note": "Trusted: Coq kernel + vm_compute, tr_regex translator (regex TEXTS are tied, the recognisers restate "
-            "Python's re semantics by hand and are compared with re on generated names every run), "
-            "coq/Spec/NamingSpec.v written from the normative text (character sets, lengths, no double hyphen: "
-            "certain; leading letter in 2.1: what the library and the 2.1 schema demand). `custom types inherit`: proved is that the "
-            "builder's table satisfies what the generic schema theorems ask of a class table (well-formedness, "
-            "world_refines for the extended world) and that it is the live class; the instantiated end-to-end "
-            "C02 statement is assembled in Props/C19InheritC02.v modulo the schema family's coverage predicate. "
-            "Props/C19.v depends only on the schema family's TYPES (Model/SchemaTypes.v); Props/C19Inherit.v and "
-            "Props/C19InheritC02.v depend on the schema family's files (Spec/SchemaRefine.v, Spec/StixValid.v, "
-            "Gen/Tables.v, Gen/SpecTables.v, Proofs/Schema*.v): when one of THOSE does not compile the two files are "
-            "not attempted-and-claimed (a note and coverage.inherit_tables say so; obligations then count only what "
-            "was built), when a C19 file fails it is a broken obligation. Regex running time is outside the model (measured with a time "
-            "limit). No axioms.",
-    "technique": "Coq proof over a hand-written executable model + translator for regex texts/built-in registry "
-                 "+ fresh-interpreter correspondence of registration histories",
+    "note": "Trusted: Coq kernel + vm_compute; tr_regex (regex TEXTS are tied; the recognisers restate Python's re "
+            "semantics by hand and are compared with re on generated names every run); tr_regflow (normalised statement "
+            "forms); coq/Spec/NamingSpec.v written from the normative text (character sets, lengths, no double hyphen: "
+            "certain; leading letter in 2.1: what the library and the 2.1 schema demand). Coverage predicates / premises "
+            "that remain: custom_type_strict_sound(_wide) carries the schema family's class_proved / class_proved2, and "
+            "the C01 instances carry closed_okw / registry_ok / parse_class_ok -- each is shown TRUE by kernel evaluation "
+            "for six example custom types (2.1 and 2.0 object, 2.1 and 2.0 observable, 2.1 property-extension, marking; "
+            "string, bounded integer, reference, list properties) and stays a premise for an arbitrary custom type; user "
+            "property kinds must be reflexive for kind_refines (no bare Property()); the registered name must be a legal "
+            "type name (registered_name_ok: it is, under the repaired recognisers). NOT proved: C05 (versioning) "
+            "inheritance -- C05's theorems are universally quantified over its tables T and so apply to any T, but no T is "
+            "built from a registration here; new_version on custom types, validation compared with built-in types, "
+            "extensions kept, marking definition objects, and the post-construction effect of extension_name= are "
+            "ORACLE-ONLY. The decorated class is assumed to have an empty body (no __init__ / constraints of its own). "
+            "Dependencies: Props/C19.v and Props/C19Src.v depend only on C19 files and the schema family's TYPES "
+            "(Model/SchemaTypes.v); Props/C19Inherit.v, Props/C19InheritC02.v and Props/C19InheritC01.v depend on the "
+            "schema family's and the C01 builder's files (Spec/SchemaRefine.v, Spec/StixValid.v, Gen/Tables.v, "
+            "Gen/SpecTables.v, Proofs/Schema*.v, Proofs/C01*.v): when one of THOSE does not compile these files are not "
+            "attempted-and-claimed (a note, coverage.inherit_tables and coverage.not_claimed say so; obligations then "
+            "count only what was built); when a C19 file fails it is a broken obligation. Regex running time is outside "
+            "the model (measured with a time limit). No axioms.",
+    "technique": "Coq proof over a hand-written executable model + translators for regex texts / built-in registry / "
+                 "registration control flow + fresh-interpreter correspondence of registration histories and class tables",
 }
 
 HEADER = """From Coq Require Import NArith List String.
@@ -1042,12 +1058,12 @@ def check(run):
             try:
                 import translate_all
                 translate_all._tables()
-                mine = mine + ("Props/C19InheritC02.v", "Proofs/C19InheritC02.v")
-                for pf in ("Props/C19Inherit.v", "Props/C19InheritC02.v"):
+                mine = mine + ("Props/C19InheritC02.v", "Proofs/C19InheritC02.v", "Props/C19InheritC01.v", "Proofs/C19InheritC01.v")
+                for pf in ("Props/C19Inherit.v", "Props/C19InheritC02.v", "Props/C19InheritC01.v"):
                     res2 = common.build_props(pf)
                     fa = res2["failed_at"]
                     if res2["ok"] or (fa and fa[0] in mine):
-                        run.add_build(res2, "make -C coq Props/C19.vo Props/C19Inherit.vo Props/C19InheritC02.vo (coqc 8.16.1, "
+                        run.add_build(res2, "make -C coq Props/C19.vo Props/C19Src.vo Props/C19Inherit.vo Props/C19InheritC02.vo Props/C19InheritC01.vo (coqc 8.16.1, "
                                             "full .vo) + Print Assumptions per theorem")
                         run.coverage.setdefault("inherit_tables", {})[pf] = "built"
                     else:
